@@ -214,6 +214,23 @@ int __wrap_open(const char *path, int flags, ...) {
     return fd;
 }
 
+/* Allocation failures.  The repository's objects (library and tools, not the harness) are compiled with calloc, malloc
+ * and realloc renamed to zv_calloc, zv_malloc, zv_realloc (harness/Makefile), so exactly the allocations made by
+ * zchunk's own code pass through here; libc, libzstd and libcrypto keep their allocator.  Counting starts at
+ * shim_alloc_arm; allocations number nth .. nth+len-1 since then fail with ENOMEM. */
+int shim_alloc_count, shim_alloc_nth, shim_alloc_len, shim_alloc_fired;
+void shim_alloc_arm(int nth, int len) { shim_alloc_count = 0; shim_alloc_nth = nth; shim_alloc_len = len; shim_alloc_fired = 0; }
+static int alloc_hit(void) {
+    if(shim_disabled) return 0;
+    if(!env_done) shim_env();
+    shim_alloc_count++;
+    if(shim_alloc_nth > 0 && shim_alloc_count >= shim_alloc_nth && shim_alloc_count < shim_alloc_nth + shim_alloc_len) { shim_alloc_fired++; errno = ENOMEM; return 1; }
+    return 0;
+}
+void *zv_calloc(size_t a, size_t b) { return alloc_hit() ? NULL : calloc(a, b); }
+void *zv_malloc(size_t a) { return alloc_hit() ? NULL : malloc(a); }
+void *zv_realloc(void *p, size_t a) { return alloc_hit() ? NULL : realloc(p, a); }
+
 void shim_set_cap(int fd, long long n) { if(fd >= 0 && fd < MAXFD) cap[fd] = n; }
 void shim_add_fault(char kind, int fd, int nth, long long action) {
     if(nrules < MAXRULE) { rules[nrules].kind = kind; rules[nrules].fd = fd; rules[nrules].nth = nth; rules[nrules].action = action; rules[nrules].used = 0; nrules++; }
@@ -223,6 +240,11 @@ void shim_clear(void) { nrules = 0; kill_fd = -100; memset(cap, 0, sizeof cap); 
 long long shim_wbytes(int fd) { if(fd == -2) fd = temp_fd; return fd >= 0 && fd < MAXFD ? wbytes[fd] : 0; }
 int shim_calls(char kind, int fd) { if(fd == -2) fd = temp_fd; return fd >= 0 && fd < MAXFD ? calls[kidx(kind)][fd] : 0; }
 
+static char *alloc_trace;
+static void alloc_report(void) {      /* tools: how many allocations the run made (to choose injection points) */
+    int fd = __real_open(alloc_trace, O_WRONLY | O_CREAT | O_TRUNC, 0666); if(fd < 0) return;
+    char tmp[64]; int l = snprintf(tmp, sizeof tmp, "%d %d\n", shim_alloc_count, shim_alloc_fired); ssize_t w = __real_write(fd, tmp, l); (void)w; __real_close(fd);
+}
 static int role_id(const char *name) {
     for(int i = 0; i < nroles; i++) if(!strcmp(role_name[i], name)) return i;
     return -1;
@@ -232,6 +254,8 @@ static int role_id(const char *name) {
  *   ZV_CAP_<name> = n                                  cap every read on that role to n bytes
  *   ZV_FAULT = kind:sel:nth:action;...                 sel = role name | any | temp
  *   ZV_KILL  = sel:nth:bytes
+ *   ZV_ALLOCFAIL = nth[:len]                           allocations nth.. (len of them, default 1) of zchunk's own code fail
+ *   ZV_ALLOCTRACE = path                               write "<allocations> <failed>" there at exit
  *   ZV_TRACE = path                                    append one JSON line per syscall on a role/temp fd */
 static void shim_env(void) {
     env_done = 1;
@@ -261,5 +285,7 @@ static void shim_env(void) {
             shim_set_kill(fd, nth, b);
         }
     }
+    if((s = getenv("ZV_ALLOCFAIL"))) { int nth = 0, len = 1; if(sscanf(s, "%d:%d", &nth, &len) >= 1) { int c = shim_alloc_count; shim_alloc_arm(nth, len); shim_alloc_count = c; } }
+    if((s = getenv("ZV_ALLOCTRACE"))) { alloc_trace = strdup(s); atexit(alloc_report); }
     if((s = getenv("ZV_TRACE"))) trace_fd = __real_open(s, O_WRONLY | O_CREAT | O_APPEND, 0666);
 }
